@@ -216,6 +216,10 @@ def join_data(left_data, right_data, join_expr, right_expr=None, is_left_join=Fa
         elif not is_left_join:
             data.append(dict(left_row))
 
+    # Carry the statement count back to the caller's options (the evaluation options may be a copy)
+    if eval_options is not options and options is not None and 'statementCount' in eval_options:
+        options['statementCount'] = eval_options['statementCount']
+
     return data
 
 
@@ -255,6 +259,10 @@ def add_calculated_field(data, field_name, expr, variables=None, options=None):
     for row in data:
         row[field_name] = evaluate_expression(calc_expr, eval_options, row)
 
+    # Carry the statement count back to the caller's options (the evaluation options may be a copy)
+    if eval_options is not options and options is not None and 'statementCount' in eval_options:
+        options['statementCount'] = eval_options['statementCount']
+
     return data
 
 
@@ -293,6 +301,10 @@ def filter_data(data, expr, variables=None, options=None):
     for row in data:
         if value_boolean(evaluate_expression(filter_expr, eval_options, row)):
             result.append(row)
+
+    # Carry the statement count back to the caller's options (the evaluation options may be a copy)
+    if eval_options is not options and options is not None and 'statementCount' in eval_options:
+        options['statementCount'] = eval_options['statementCount']
 
     return result
 
